@@ -14,7 +14,7 @@ Each stored parameter must be dominated by the documented sanitiser:
 from ..model import AnalysisError
 from ..terms import T, walk_terms
 from ..absint import TOP
-from ..walk import (data_derives, ret_alts, call_parts, call_arg, is_call_to, const_val, NOVAL, strip_views, unwrap_gamma, callee_func)
+from ..walk import (struct_eq, data_derives, ret_alts, call_parts, call_arg, is_call_to, const_val, NOVAL, strip_views, unwrap_gamma, callee_func)
 from .c01 import positive_floor
 from . import c08, c01
 from .. import sel
@@ -54,7 +54,7 @@ def check_vmf(run, A):
             d = strip_views(m.args[2])
             inner = d.args[0] if d.op == 'sub' else d
             okm = is_call_to(inner, 'numpy.maximum') and any(positive_floor(x) for x in (call_arg(inner, 0), call_arg(inner, 1))) and \
-                any(is_call_to(x, 'numpy.linalg.norm') and call_arg(x, 0) is m.args[1] for x in walk_terms(inner))
+                any(is_call_to(x, 'numpy.linalg.norm') and (call_arg(x, 0) is m.args[1] or strip_views(call_arg(x, 0)) is strip_views(m.args[1]) or struct_eq(call_arg(x, 0), m.args[1])) for x in walk_terms(inner))
     run.check(okm, 'R-SAN', 'vMF: stored mean is the resultant divided by its floored norm', fn.loc(), '', 'mean is not r / maximum(||r||, tiny): a zero resultant would give NaN',
               construct=f'R-SAN::{q}::mean')
 
